@@ -19,10 +19,14 @@ type Env struct {
 	vars  map[string]*Val
 	pkg   *types.Package
 	depth int
+	// state and environment at the entry of the loop whose invariant is being evaluated: atloop(e)
+	loopPre    *State
+	loopPreEnv *Env
+	at         *ssa.BasicBlock // where the expression is evaluated (resolves source names defined more than once)
 }
 
 func (e *Env) child() *Env {
-	n := &Env{vars: map[string]*Val{}, pkg: e.pkg, depth: e.depth + 1}
+	n := &Env{vars: map[string]*Val{}, pkg: e.pkg, depth: e.depth + 1, loopPre: e.loopPre, loopPreEnv: e.loopPreEnv, at: e.at}
 	for k, v := range e.vars {
 		n.vars[k] = v
 	}
@@ -87,6 +91,7 @@ var contractSMTFns = map[string]smtFn{
 	"parsefloat_ok":  {[]string{"Str"}, "Bool", types.Typ[types.Bool]},
 	"parsefloat_val": {[]string{"Str"}, F64, types.Typ[types.Float64]},
 	"str_tolower":    {[]string{"Str"}, "Str", types.Typ[types.String]},
+	"str_title":      {[]string{"Str"}, "Str", types.Typ[types.String]},
 }
 
 var kindNames = map[string]int{"Invalid": 0, "Bool": 1, "Int": 2, "Int8": 3, "Int16": 4, "Int32": 5, "Int64": 6, "Uint": 7, "Uint8": 8, "Uint16": 9,
@@ -145,6 +150,24 @@ func (fr *Frame) eval(e *Expr, env *Env, st *State, old *State) *Val {
 		if sv0, ok := fr.nameVals[e.name]; ok {
 			if v, ok := fr.vals[sv0]; ok && (v.K == vTerm || v.K == vFunc) {
 				return v
+			}
+		}
+		if cands := fr.nameCands[e.name]; len(cands) > 1 && env.at != nil {
+			// several definitions: the innermost one that dominates the place of evaluation
+			var best ssa.Value
+			for _, c := range cands {
+				in, ok := c.(ssa.Instruction)
+				if !ok || in.Block() == nil || !in.Block().Dominates(env.at) || in.Block() == env.at {
+					continue
+				}
+				if best == nil || best.(ssa.Instruction).Block().Dominates(in.Block()) {
+					best = c
+				}
+			}
+			if best != nil {
+				if v, ok := fr.vals[best]; ok && (v.K == vTerm || v.K == vFunc) {
+					return v
+				}
 			}
 		}
 		if av, ok := fr.nameAddrs[e.name]; ok {
@@ -230,6 +253,22 @@ func (fr *Frame) eval(e *Expr, env *Env, st *State, old *State) *Val {
 	case "bin":
 		return fr.evalBin(e, env, st, old)
 	case "field":
+		if b := e.args[0]; b.op == "ident" && env.pkg != nil {
+			// pkg.Var : a package-level variable of an imported package
+			if _, isVar := env.vars[b.name]; !isVar {
+				for _, imp := range env.pkg.Imports() {
+					if imp.Name() != b.name {
+						continue
+					}
+					if sp := u.eng.prog.Package(imp); sp != nil {
+						if g, ok := sp.Members[e.name].(*ssa.Global); ok {
+							a := fr.val(g)
+							return term(u.loadAddr(st, a), g.Type().(*types.Pointer).Elem())
+						}
+					}
+				}
+			}
+		}
 		x := fr.eval(e.args[0], env, st, old)
 		return fr.evalField(x, e.name, st, e)
 	case "index":
@@ -475,6 +514,25 @@ func (fr *Frame) evalCall(e *Expr, env *Env, st *State, old *State) *Val {
 	switch e.name {
 	case "old":
 		return fr.eval(e.args[0], env, old, old)
+	case "atloop":
+		// atloop(e): value of e when the loop (whose invariant this is) was entered
+		if env.loopPre == nil || len(e.args) != 1 {
+			evalFail("atloop(e) is only meaningful in a loop invariant")
+		}
+		return fr.eval(e.args[0], env.loopPreEnv, env.loopPre, old)
+	case "written":
+		// written(w): ghost text written so far to the writer w through fmt.Fprintf / fmt.Fprint
+		x := arg(0)
+		u.ghostSort["out"] = "(Array Ref Str)"
+		return term(fmt.Sprintf("(select %s %s)", u.ghostOf(st, "out"), fr.refOf(x)), types.Typ[types.String])
+	case "sortedkey":
+		// sortedkey(m, i): the i-th smallest key of the map m (defined by the library contract of sort.Strings)
+		m, i := arg(0), arg(1)
+		mt, ok := m.Ty.Underlying().(*types.Map)
+		if !ok {
+			evalFail("sortedkey(m, i) needs a map")
+		}
+		return term(app(u.sortedKeyFn(mt), m.T, i.T), mt.Key())
 	case "len":
 		x := arg(0)
 		switch xt := x.Ty.Underlying().(type) {
@@ -785,6 +843,11 @@ func (fr *Frame) evalCall(e *Expr, env *Env, st *State, old *State) *Val {
 func (fr *Frame) loadedOld(v *Val, st *State) *Val {
 	u := fr.u
 	if v.Ty == nil || st == nil {
+		return v
+	}
+	if strings.Contains(v.T, "|q:") {
+		// a term over a quantified variable: the fact would be closed universally and then says that every
+		// reference exists already, which contradicts allocation
 		return v
 	}
 	switch v.Ty.Underlying().(type) {
